@@ -1,3 +1,390 @@
-import GoStd.Bytes
+/-
+C15 — Dialog pins live exactly as long as promised and are forgotten on termination.
+
+"A dialog's backend pin is honoured for at least the configured dialog timeout - or the Expires
+value of the response that established it, if larger - and never after that lifetime has elapsed.
+It is dissolved early when the backend answers a BYE for the dialog or a NOTIFY with
+Subscription-State `terminated` passes through, after which requests bearing that dialog's
+identifiers are load-balanced like new ones. Expired pins are purged as traffic continues - none
+survives more than one further dialog-timeout period of ongoing traffic, whatever Expires values
+messages carry - so the table of remembered pins cannot grow without bound."
+
+Model: Side.Pins (backend.go DialogBasedBackend) with explicit time. Histories are arbitrary
+sequences of add / get / remove at non-decreasing instants. (That BYE responses and
+NOTIFY-terminated call `remove`, and that an unpinned dialog is load-balanced, is C04's pipeline
+model; here: the table.) Wall-clock behaviour is not modelled (partial): the virtual-clock stream
+`pins` and margins are the tie.
+-/
+import Side.Pins
+open GoStd Side.Pins
+
 namespace Props.C15
+
+inductive Op where
+  | add (k : Key) (b : Backend) (expires : Int)
+  | get (k : Key)
+  | remove (k : Key)
+  deriving Repr, DecidableEq
+
+def step (s : St) (now : Nat) : Op → St
+  | .add k b e => add s k b e now
+  | .get k => (Side.Pins.get s k now).1
+  | .remove k => remove s k
+
+/-- a history: operations with their instants -/
+def run : St → List (Nat × Op) → St
+  | s, [] => s
+  | s, (t, op) :: h => run (step s t op) h
+
+/-- instants are non-decreasing, start at `from` and stay ≤ `upto` -/
+def Timed (frm upto : Nat) : List (Nat × Op) → Prop
+  | [] => frm ≤ upto
+  | (t, _) :: h => frm ≤ t ∧ Timed t upto h
+
+/-- the operation leaves the pin of key `k` alone (lookups are allowed) -/
+def Avoids (k : Key) : Op → Prop
+  | .add k' _ _ => k' ≠ k
+  | .remove k' => k' ≠ k
+  | .get _ => True
+
+/-- the history never touches the pin of key `k` except by looking it up -/
+def Untouched (k : Key) (h : List (Nat × Op)) : Prop := ∀ p ∈ h, Avoids k p.2
+
+def KeysNodup (s : St) : Prop := (s.entries.map (·.key)).Nodup
+
+theorem eraseKey_sublist (es : List Entry) (k : Key) : (eraseKey es k).Sublist es := List.filter_sublist
+
+theorem keysNodup_eraseKey (es : List Entry) (k : Key) (h : (es.map (·.key)).Nodup) :
+    ((eraseKey es k).map (·.key)).Nodup := ((eraseKey_sublist es k).map _).nodup h
+
+theorem not_mem_keys_eraseKey (es : List Entry) (k : Key) : k ∉ (eraseKey es k).map (·.key) := by
+  simp [eraseKey]
+
+theorem keysNodup_add (s : St) (k : Key) (b : Backend) (e : Int) (now : Nat) (h : KeysNodup s) :
+    KeysNodup (add s k b e now) := by
+  have hbase : ((eraseKey s.entries k ++ [({ key := k, backend := b, expire := now + lifetime s.timeout e } : Entry)]).map (·.key)).Nodup := by
+    rw [List.map_append]
+    refine List.nodup_append.mpr ⟨keysNodup_eraseKey _ _ h, by simp, ?_⟩
+    intro x hx y hy
+    simp at hy; subst hy
+    exact fun e' => not_mem_keys_eraseKey s.entries y (e' ▸ hx)
+  unfold add KeysNodup
+  simp only
+  split
+  · exact ((List.filter_sublist (l := _)).map _).nodup hbase
+  · exact hbase
+
+theorem keysNodup_get (s : St) (k : Key) (now : Nat) (h : KeysNodup s) : KeysNodup (Side.Pins.get s k now).1 := by
+  unfold Side.Pins.get
+  split
+  · exact h
+  · split
+    · exact h
+    · exact keysNodup_eraseKey _ _ h
+
+theorem keysNodup_step (s : St) (now : Nat) (op : Op) (h : KeysNodup s) : KeysNodup (step s now op) := by
+  cases op with
+  | add k b e => exact keysNodup_add s k b e now h
+  | get k => exact keysNodup_get s k now h
+  | remove k => exact keysNodup_eraseKey _ _ h
+
+/-- with distinct keys, membership determines the lookup -/
+theorem find_of_mem (es : List Entry) (x : Entry) (hnd : (es.map (·.key)).Nodup) (hx : x ∈ es) :
+    es.find? (fun e => e.key == x.key) = some x := by
+  induction es with
+  | nil => cases hx
+  | cons y ys ih =>
+    simp only [List.map_cons, List.nodup_cons] at hnd
+    rcases List.mem_cons.mp hx with rfl | hm
+    · simp
+    · have hne : y.key ≠ x.key := fun e => hnd.1 (e ▸ List.mem_map_of_mem hm)
+      simp [List.find?_cons, hne, ih hnd.2 hm]
+
+/-- the step of a history that leaves key `k` alone keeps k's entry, as long as it has not expired -/
+theorem step_keeps (s : St) (now : Nat) (op : Op) (x : Entry) (hx : x ∈ s.entries) (hnd : KeysNodup s)
+    (hlive : now < x.expire)
+    (hop : Avoids x.key op) :
+    x ∈ (step s now op).entries := by
+  cases op with
+  | add k b e =>
+    have hk : x.key ≠ k := fun h => hop h.symm
+    have hmem : x ∈ eraseKey s.entries k ++ [{ key := k, backend := b, expire := now + lifetime s.timeout e }] :=
+      List.mem_append_left _ (List.mem_filter.mpr ⟨hx, by simpa using hk⟩)
+    simp only [step, add]
+    split
+    · exact List.mem_filter.mpr ⟨hmem, by simp; omega⟩
+    · exact hmem
+  | remove k =>
+    have hk : x.key ≠ k := fun h => hop h.symm
+    exact List.mem_filter.mpr ⟨hx, by simpa using hk⟩
+  | get k =>
+    simp only [step, Side.Pins.get]
+    split
+    · exact hx
+    · rename_i e he
+      split
+      · exact hx
+      · rename_i hexp
+        have hk : x.key ≠ k := by
+          intro hkk
+          have := find_of_mem s.entries x hnd hx
+          rw [hkk] at this
+          rw [this] at he
+          cases he
+          omega
+        exact List.mem_filter.mpr ⟨hx, by simpa using hk⟩
+
+/-- **Honoured.** A pin added at `t0` with lifetime L = max(timeout, Expires) is returned by every
+lookup strictly before `t0 + L`, whatever other pins are added, looked up, removed or swept in
+between. -/
+theorem C15_honoured (s : St) (k : Key) (b : Backend) (E : Int) (t0 t : Nat) (h : List (Nat × Op))
+    (hnd : KeysNodup s) (ht : Timed t0 t h) (hu : Untouched k h)
+    (hlt : t < t0 + lifetime s.timeout E) :
+    (Side.Pins.get (run (add s k b E t0) h) k t).2 = some b := by
+  -- the entry and the invariant it satisfies along the history
+  let x : Entry := { key := k, backend := b, expire := t0 + lifetime s.timeout E }
+  have hx0 : x ∈ (add s k b E t0).entries := by
+    have hmem : x ∈ eraseKey s.entries k ++ [x] := by simp
+    simp only [add]
+    split
+    · exact List.mem_filter.mpr ⟨hmem, by simp [x]⟩
+    · exact hmem
+  have hnd0 := keysNodup_add s k b E t0 hnd
+  have key : ∀ (h : List (Nat × Op)) (s' : St) (t1 : Nat), x ∈ s'.entries → KeysNodup s' → Timed t1 t h → Untouched k h →
+      x ∈ (run s' h).entries ∧ KeysNodup (run s' h) := by
+    intro h
+    induction h with
+    | nil => intro s' _ hx hn _ _; exact ⟨hx, hn⟩
+    | cons p h ih =>
+      obtain ⟨tp, op⟩ := p
+      intro s' t1 hx hn htm hun
+      simp only [run]
+      have htp : tp ≤ t := by
+        have : ∀ (l : List (Nat × Op)) (a : Nat), Timed a t l → a ≤ t := by
+          intro l
+          induction l with
+          | nil => intro a ha; exact ha
+          | cons q l ihl => intro a ha; obtain ⟨q1, q2⟩ := q; exact Nat.le_trans ha.1 (ihl q1 ha.2)
+        exact this h tp htm.2
+      have hop : Avoids x.key op := hun (tp, op) (by simp)
+      have hun' : Untouched k h := fun q hq => hun q (by simp [hq])
+      exact ih _ tp (step_keeps s' tp op x hx hn (by simp [x]; omega) hop) (keysNodup_step s' tp op hn) htm.2 hun'
+  obtain ⟨hxe, hne⟩ := key h _ t0 hx0 hnd0 ht hu
+  have hf := find_of_mem _ x hne hxe
+  simp only [Side.Pins.get]
+  have : (fun e : Entry => e.key == k) = (fun e : Entry => e.key == x.key) := rfl
+  rw [this, hf]
+  have hgt : x.expire > t := by simp [x]; omega
+  simp [hgt, x]
+
+/-- every entry of key `k` carries the expiry `e0` -/
+def AllExpire (s : St) (k : Key) (e0 : Nat) : Prop := ∀ y ∈ s.entries, y.key = k → y.expire = e0
+
+theorem allExpire_step (s : St) (now : Nat) (op : Op) (k : Key) (e0 : Nat) (h : AllExpire s k e0)
+    (hop : match op with | .add k' _ _ => k' ≠ k | _ => True) : AllExpire (step s now op) k e0 := by
+  intro y hy hk
+  cases op with
+  | add k' b e =>
+    simp only [step, add] at hy
+    have hne : k' ≠ k := hop
+    have hy' : y ∈ eraseKey s.entries k' ++ [{ key := k', backend := b, expire := now + lifetime s.timeout e }] := by
+      split at hy
+      · exact (List.mem_filter.mp hy).1
+      · exact hy
+    rcases List.mem_append.mp hy' with hm | hm
+    · exact h y (List.mem_filter.mp hm).1 hk
+    · simp at hm; subst hm; exact absurd hk hne
+  | get k' =>
+    simp only [step, Side.Pins.get] at hy
+    split at hy
+    · exact h y hy hk
+    · split at hy
+      · exact h y hy hk
+      · exact h y (List.mem_filter.mp hy).1 hk
+  | remove k' => exact h y (List.mem_filter.mp hy).1 hk
+
+/-- **Not after.** Once the lifetime has elapsed the pin is never honoured again (unless the
+dialog is pinned anew): every lookup at `t ≥ t0 + L` fails. -/
+theorem C15_not_after (s : St) (k : Key) (b : Backend) (E : Int) (t0 t : Nat) (h : List (Nat × Op))
+    (hu : ∀ p ∈ h, ∀ k' b' e', p.2 = Op.add k' b' e' → k' ≠ k)
+    (hge : t0 + lifetime s.timeout E ≤ t) :
+    (Side.Pins.get (run (add s k b E t0) h) k t).2 = none := by
+  have h0 : AllExpire (add s k b E t0) k (t0 + lifetime s.timeout E) := by
+    intro y hy hk
+    simp only [add] at hy
+    have hy' : y ∈ eraseKey s.entries k ++ [{ key := k, backend := b, expire := t0 + lifetime s.timeout E }] := by
+      split at hy
+      · exact (List.mem_filter.mp hy).1
+      · exact hy
+    rcases List.mem_append.mp hy' with hm | hm
+    · have := (List.mem_filter.mp hm).2; simp [hk] at this
+    · simp at hm; subst hm; rfl
+  have key : ∀ (h : List (Nat × Op)) (s' : St), AllExpire s' k (t0 + lifetime s.timeout E) →
+      (∀ p ∈ h, ∀ k' b' e', p.2 = Op.add k' b' e' → k' ≠ k) → AllExpire (run s' h) k (t0 + lifetime s.timeout E) := by
+    intro h
+    induction h with
+    | nil => intro s' ha _; exact ha
+    | cons p h ih =>
+      intro s' ha hu
+      obtain ⟨tp, op⟩ := p
+      simp only [run]
+      apply ih
+      · apply allExpire_step _ _ _ _ _ ha
+        cases op with
+        | add k' b' e' => exact hu (tp, .add k' b' e') (by simp) k' b' e' rfl
+        | get _ => trivial
+        | remove _ => trivial
+      · intro q hq; exact hu q (by simp [hq])
+  have hall := key h _ h0 hu
+  simp only [Side.Pins.get]
+  split
+  · rfl
+  · rename_i e he
+    have hmem := List.mem_of_find?_eq_some he
+    have hkey : e.key = k := by simpa using List.find?_some he
+    have := hall e hmem hkey
+    split
+    · omega
+    · rfl
+
+/-- **Terminated.** After `remove` (BYE answered / NOTIFY terminated) the pin is gone: lookups fail
+until the dialog is pinned anew, whatever else happens. -/
+theorem C15_terminated (s : St) (k : Key) (t : Nat) (h : List (Nat × Op))
+    (hu : ∀ p ∈ h, ∀ k' b' e', p.2 = Op.add k' b' e' → k' ≠ k) :
+    (Side.Pins.get (run (remove s k) h) k t).2 = none := by
+  have h0 : ∀ y ∈ (remove s k).entries, y.key ≠ k := by
+    intro y hy; simpa [remove, eraseKey] using (List.mem_filter.mp hy).2
+  have key : ∀ (h : List (Nat × Op)) (s' : St), (∀ y ∈ s'.entries, y.key ≠ k) →
+      (∀ p ∈ h, ∀ k' b' e', p.2 = Op.add k' b' e' → k' ≠ k) → ∀ y ∈ (run s' h).entries, y.key ≠ k := by
+    intro h
+    induction h with
+    | nil => intro s' ha _; exact ha
+    | cons p h ih =>
+      intro s' ha hu
+      obtain ⟨tp, op⟩ := p
+      simp only [run]
+      apply ih
+      · intro y hy
+        cases op with
+        | add k' b' e' =>
+          have hne : k' ≠ k := hu (tp, .add k' b' e') (by simp) k' b' e' rfl
+          simp only [step, add] at hy
+          have hy' : y ∈ eraseKey s'.entries k' ++ [{ key := k', backend := b', expire := tp + lifetime s'.timeout e' }] := by
+            split at hy
+            · exact (List.mem_filter.mp hy).1
+            · exact hy
+          rcases List.mem_append.mp hy' with hm | hm
+          · exact ha y (List.mem_filter.mp hm).1
+          · simp at hm; subst hm; exact hne
+        | get k' =>
+          simp only [step, Side.Pins.get] at hy
+          split at hy
+          · exact ha y hy
+          · split at hy
+            · exact ha y hy
+            · exact ha y (List.mem_filter.mp hy).1
+        | remove k' => exact ha y (List.mem_filter.mp hy).1
+      · intro q hq; exact hu q (by simp [hq])
+  have hall := key h _ h0 hu
+  simp only [Side.Pins.get]
+  split
+  · rfl
+  · rename_i e he
+    exact absurd (by simpa using List.find?_some he) (hall e (List.mem_of_find?_eq_some he))
+
+/-! ### purging: the table cannot grow without bound -/
+
+/-- sweep bookkeeping invariant at instant `now` (the time of the latest operation):
+the next sweep is at most one timeout away, and no stored pin expired more than one timeout
+before the next sweep. -/
+def SweepInv (s : St) (now : Nat) : Prop :=
+  s.nextClean ≤ now + s.timeout ∧ ∀ x ∈ s.entries, s.nextClean ≤ x.expire + s.timeout
+
+theorem sweepInv_init (timeout now : Nat) : SweepInv (init timeout now) now := by
+  simp [SweepInv, init]
+
+theorem timeout_step (s : St) (now : Nat) (op : Op) : (step s now op).timeout = s.timeout := by
+  cases op with
+  | add k b e => simp only [step, add]; split <;> rfl
+  | get k =>
+    simp only [step, Side.Pins.get]
+    split
+    · rfl
+    · split <;> rfl
+  | remove k => rfl
+
+theorem lifetime_ge (T : Nat) (E : Int) : T ≤ lifetime T E := by
+  unfold lifetime; split <;> omega
+
+theorem sweepInv_step (s : St) (now t : Nat) (op : Op) (h : SweepInv s now) (ht : now ≤ t) :
+    SweepInv (step s t op) t := by
+  obtain ⟨h1, h2⟩ := h
+  cases op with
+  | add k b e =>
+    have hl := lifetime_ge s.timeout e
+    simp only [step, add]
+    split
+    · refine ⟨Nat.le_refl _, ?_⟩
+      intro x hx
+      have := (List.mem_filter.mp hx).2
+      simp at this
+      simp only; omega
+    · refine ⟨by simp only; omega, ?_⟩
+      intro x hx
+      rcases List.mem_append.mp hx with hm | hm
+      · exact h2 x (List.mem_filter.mp hm).1
+      · simp at hm; subst hm; simp only; omega
+  | get k =>
+    simp only [step, Side.Pins.get]
+    split
+    · exact ⟨by simp only; omega, h2⟩
+    · split
+      · exact ⟨by simp only; omega, h2⟩
+      · exact ⟨by simp only; omega, fun x hx => h2 x (List.mem_filter.mp hx).1⟩
+  | remove k => exact ⟨by simp only [step, remove]; omega, fun x hx => h2 x (List.mem_filter.mp hx).1⟩
+
+/-- the invariant holds in every state reached from a fresh table by a timed history -/
+theorem sweepInv_run (s : St) (now : Nat) (h : List (Nat × Op)) (upto : Nat) (hi : SweepInv s now) (ht : Timed now upto h) :
+    ∃ last, SweepInv (run s h) last ∧ last ≤ upto := by
+  induction h generalizing s now with
+  | nil => exact ⟨now, hi, ht⟩
+  | cons p h ih =>
+    obtain ⟨tp, op⟩ := p
+    exact ih _ tp (sweepInv_step s now tp op hi ht.1) ht.2
+
+/-- **Purged.** After any pin is added at instant `t`, no pin whose lifetime ended more than one
+dialog timeout before `t` is left in the table - whatever Expires values any message carried. -/
+theorem C15_purged (s : St) (now t : Nat) (k : Key) (b : Backend) (E : Int) (h : SweepInv s now) (ht : now ≤ t) :
+    ∀ x ∈ (add s k b E t).entries, ¬ (x.expire + s.timeout < t) := by
+  obtain ⟨h1, h2⟩ := h
+  have hl := lifetime_ge s.timeout E
+  intro x hx
+  simp only [add] at hx
+  split at hx
+  · have := (List.mem_filter.mp hx).2
+    simp at this; omega
+  · rename_i hns
+    rcases List.mem_append.mp hx with hm | hm
+    · have := h2 x (List.mem_filter.mp hm).1; omega
+    · simp at hm; subst hm; simp only; omega
+
+/-- the lifetime is the larger of the configured timeout and the Expires value -/
+theorem C15_lifetime (T : Nat) (E : Int) :
+    lifetime T E = max T (E.toNat * second) := by
+  unfold lifetime
+  split
+  · rename_i h; omega
+  · rename_i h
+    by_cases hE : E > 0
+    · have : ¬ (E.toNat * second > T) := fun hh => h ⟨hE, hh⟩
+      omega
+    · have : E.toNat = 0 := by omega
+      simp [this]
+
+/-! ### non-vacuity -/
+example : KeysNodup (init 5 0) ∧ SweepInv (init 5 0) 0 := by
+  exact ⟨by simp [KeysNodup, init], sweepInv_init 5 0⟩
+example : (Side.Pins.get (add (init 5 0) [1] [2] 0 3) [1] 7).2 = some [2] ∧ (Side.Pins.get (add (init 5 0) [1] [2] 0 3) [1] 8).2 = none := by
+  decide
+
 end Props.C15
